@@ -7,7 +7,7 @@ from common import cz, cbool, clist
 ID = 'C03'
 GEN_MODULES = ['Ident', 'Classes', 'Flags']
 MODEL_TARGETS = ['coq/C03/Run.vo']
-PROOF_TARGETS = ['coq/C03/Proofs.vo']
+PROOF_TARGETS = ['coq/C03/Proofs.vo', 'coq/Core/EnvIndep.vo']
 PROPS_FILE = 'coq/Props/C03.v'
 RUN_MODULE = 'QCE.C03.Run'
 COQ_HEADER = 'From Gen Require Import Ident Classes.\nFrom QCE Require Import Core.Model Core.Run C03.Model.'
